@@ -59,6 +59,8 @@ def floors(tier):
         "cls:unicode": f,
         "cls:unicode_line_boundary": f,
         "read_back_through_LocalBackend.stdout": 10 * f,
+        "polls_during_script": 10 * f,
+        "cls:long_multibyte_output": f,
         "noise:no_newline_before_report": f,
         "rejected:reserved_key": f // 2,
         "rejected:unserialisable": f // 2,
@@ -192,6 +194,10 @@ def _bad_value(rng, kind=None):
 def _noise(rng, classes):
     s = _rand_str(rng, classes).replace(TAG, "[tune-metri c]")
     s += rng.choice(["", "", "log line", "{", "}", "{\"a\": 1}", "[tune-metric", "tune-metric]: {\"z\": 0}", "]: {}"])
+    if rng.random() < 0.25:
+        # progress bars / banners: long runs of multi-byte characters (many more bytes than characters)
+        s += rng.choice(["\u2588", "\u2591\u2592", "\U0001F600", "\u00e9", "\u65e5\u672c"]) * rng.randint(10, 120)
+        classes.add("long_multibyte_output")
     nl = rng.random() < 0.6
     return s + ("\n" if nl else ""), nl
 
@@ -201,14 +207,13 @@ _BE = {}
 
 def _backend():
     """One LocalBackend per worker process (only its path handling and stdout() are used)."""
-    be = _BE.get(os.getpid())
-    if be is None:
-        from syne_tune.backend import LocalBackend
+    # a fresh backend object per case: state a backend keeps between polls (read positions, caches) must not leak from one
+    # generated script into the next one, and must be exercised by the polls within the case
+    from syne_tune.backend import LocalBackend
 
-        be = LocalBackend(entry_point=os.path.abspath(__file__))
-        be.set_path(results_root=envshim.scratch_dir(), tuner_name=f"c18-{os.getpid()}")
-        _BE.clear()
-        _BE[os.getpid()] = be
+    _BE["n"] = _BE.get("n", 0) + 1
+    be = LocalBackend(entry_point=os.path.abspath(__file__))
+    be.set_path(results_root=envshim.scratch_dir(), tuner_name=f"c18-{os.getpid()}-{_BE['n'] % 50}")
     return be
 
 
@@ -234,6 +239,7 @@ def run_case(spec):
     f = open(path, "w")
     last_was_noise_no_nl = False
     noise_tail = ""
+    polls = []
     try:
         sys.stdout = f
         for step in range(spec["steps"]):
@@ -249,6 +255,8 @@ def run_case(spec):
                 last_was_noise_no_nl = bool(text) and not nl
                 script_sig.append(("noise", nl, tuple(sorted(classes))))
                 hostile = True
+                if "long_multibyte_output" in classes:
+                    o.count("cls:long_multibyte_output")
                 continue
             nkeys = rng.randint(1, 4)
             d = {}
@@ -313,6 +321,26 @@ def run_case(spec):
                 hostile = True
             expected.append(_norm(d))
             script_sig.append(("report", tuple(sorted(classes))))
+            if rng.random() < 0.5 and None not in expected:
+                # the tuner polls while the script is still running: everything reported so far, once, unchanged
+                sys.stdout.flush()
+                sys.stdout = real_stdout
+                try:
+                    got_now = retrieve(log_lines=be.stdout(0))
+                    o.count("polls_during_script")
+                    if len(got_now) != len(expected):
+                        o.violate("exactly_those_reports", "poll_during_script:retrieved_count_differs",
+                                  {"expected": len(expected), "got": len(got_now), "poll": len(polls)})
+                    else:
+                        for e_, g_ in zip(expected, got_now):
+                            if not _eq(e_, {k_: v_ for k_, v_ in g_.items() if not k_.startswith("st_")}):
+                                o.violate("unchanged", "poll_during_script:report_altered_in_transport", {"sent": e_, "got": g_})
+                                break
+                    polls.append(len(got_now))
+                except Exception as e:  # noqa: BLE001
+                    o.violate("parse", "poll_during_script:retrieve_raised:" + type(e).__name__, {"error": repr(e)[:300]})
+                finally:
+                    sys.stdout = f
     finally:
         sys.stdout = real_stdout
         f.close()
